@@ -719,3 +719,132 @@ func isNamed(t types.Type, pkgRel, name string) bool {
 	}
 	return n.Obj().Name() == name && n.Obj().Pkg() != nil && n.Obj().Pkg().Path() == modPath+"/"+pkgRel
 }
+
+// ---------------------------------------------------------------- NOCLAMP
+
+// ruleNoClamp: in the per-axis zoom functions no branch condition compares an
+// index value (kind X, Y or F) except the test of the emission loop: a clamp
+// or range check on the index changes which voxels refine or contain the input.
+func ruleNoClamp(w *World, r *Report, fn string) {
+	r.Rule("NOCLAMP", "in the per-axis zoom functions (HorizontalZoomMinMax, HorizontalZoom, VerticalZoom) branch conditions depend on the zoom difference only; the only comparison of an index value is the bound test of the loop that emits the range (an index clamp or range check silently drops or moves voxels at the edge of the index range)")
+	f := lookupByName(w, fn)
+	if f == nil {
+		r.add("NOCLAMP", fn, "?", Unresolved, "function not found")
+		return
+	}
+	ke := kindsFor(w)
+	idx := ks(kX, kY, kF)
+	n, bad := 0, ""
+	for _, blk := range f.Blocks {
+		_, _, ifi := ifSuccs(blk)
+		if ifi == nil {
+			continue
+		}
+		c, ok := ifi.Cond.(*ssa.BinOp)
+		if !ok {
+			continue
+		}
+		n++
+		kx, ky := ke.Eval(c.X), ke.Eval(c.Y)
+		isIdx := func(a *AV) bool { return a != nil && a.Scalar&idx != 0 && a.Scalar&^idx == 0 }
+		if !isIdx(kx) && !isIdx(ky) {
+			continue
+		}
+		// loop test: one operand is a loop phi incremented by one in the loop
+		loopTest := false
+		for _, v := range []ssa.Value{c.X, c.Y} {
+			if p, ok := v.(*ssa.Phi); ok && p.Block() == blk {
+				for _, e := range p.Edges {
+					if inc, ok := e.(*ssa.BinOp); ok && inc.Op == token.ADD && inc.X == ssa.Value(p) {
+						if k, ok := constInt(inc.Y); ok && k == 1 {
+							loopTest = true
+						}
+					}
+				}
+			}
+		}
+		if !loopTest {
+			bad = "index value compared outside the emission loop test at " + w.Pos(c.Pos()) + " (" + shortInstr(c) + ")"
+		}
+	}
+	if bad != "" {
+		r.add("NOCLAMP", fn, w.Pos(f.Pos()), Violated, bad)
+	} else {
+		r.add("NOCLAMP", fn, w.Pos(f.Pos()), Discharged, fmt.Sprintf("%d branch conditions: none clamps or range-checks an index", n))
+	}
+}
+
+// ---------------------------------------------------------------- ELEMENTWISE
+
+// ruleElementwise: the loop over the input list of an element-wise conversion
+// carries no state from one element to the next except the loop counter, the
+// result accumulators (slices / maps) and integer counters stepped by a constant.
+func ruleElementwise(w *World, r *Report, fn string, pidx int) {
+	r.Rule("ELEMENTWISE", "the per-element loop of a conversion carries nothing from one element to the next except the loop counter, result accumulators (slices, maps) and constant-step counters: a remembered previous key, tile or result makes an element's output depend on its neighbours (stale cache)")
+	f := lookupByName(w, fn)
+	if f == nil {
+		r.add("ELEMENTWISE", fn, "?", Unresolved, "function not found")
+		return
+	}
+	loop := loopOverParam(f, pidx)
+	if loop == nil {
+		r.add("ELEMENTWISE", fn, w.Pos(f.Pos()), Info, "no range loop over the input list")
+		return
+	}
+	blocks := loop.blocks()
+	bad := ""
+	n := 0
+	for _, in := range loop.Header.Instrs {
+		p, ok := in.(*ssa.Phi)
+		if !ok {
+			continue
+		}
+		n++
+		if isSlice(p.Type()) || isMap(p.Type()) {
+			continue
+		}
+		// the rangeindex counter, or a counter stepped by a constant
+		okCounter := false
+		if isIntType(p.Type()) {
+			okCounter = true
+			for i, e := range p.Edges {
+				if !blocks[loop.Header.Preds[i]] {
+					continue
+				}
+				for _, leaf := range phiLeaves(e) {
+					if leaf == ssa.Value(p) {
+						continue
+					}
+					inc, ok := leaf.(*ssa.BinOp)
+					if !ok || inc.Op != token.ADD || stripConv(inc.X) != ssa.Value(p) {
+						okCounter = false
+						continue
+					}
+					if _, isK := constInt(inc.Y); !isK {
+						okCounter = false
+					}
+				}
+			}
+		}
+		if okCounter {
+			continue
+		}
+		// a value that never changes inside the loop is not state
+		changes := false
+		for i, e := range p.Edges {
+			if blocks[loop.Header.Preds[i]] && resolve(e) != ssa.Value(p) {
+				changes = true
+			}
+		}
+		if !changes {
+			continue
+		}
+		bad = "loop-carried value " + p.Name() + " (" + p.Comment + ", " + p.Type().String() + ") is remembered from one element to the next"
+	}
+	// local variables (address-taken) written inside the loop and read before being written in the same iteration are not tracked
+	if bad != "" {
+		r.add("ELEMENTWISE", fn, w.Pos(f.Pos()), Violated, bad)
+	} else {
+		r.add("ELEMENTWISE", fn, w.Pos(f.Pos()), Discharged, fmt.Sprintf("%d loop-carried value(s): counter and accumulators only", n))
+	}
+}
